@@ -32,12 +32,47 @@ fn check_token(s: &[char], t: &Token, is_err: bool) -> Result<(usize, usize), St
         TokenType::Label(x) => format!("{x}:") == text,
         TokenType::Directive(x) => *x == text && text.starts_with('.'),
         TokenType::Comment(x) => format!("#{x}") == text,
-        TokenType::String(_) => text.len() >= 2 && text.starts_with('"') && text.ends_with('"'),
-        TokenType::Char(_) => text.len() >= 2 && text.starts_with('\'') && text.ends_with('\''),
+        TokenType::String(_) => complete_literal(&text, '"'),
+        TokenType::Char(_) => complete_literal(&text, '\''),
     };
     if !ok { return Err(format!("token {:?} does not match the text {text:?} of its range {a}..={b}", t.token_type())); }
     if *t.token_type() != TokenType::Newline && text.contains('\n') { return Err(format!("token spans a newline: {text:?}")); }
     Ok((a, b))
+}
+
+/// `text` is one whole quoted literal: opening quote, body in which a backslash escapes the next character, and the first
+/// unescaped closing quote as its last character (so the range of a literal with escapes reaches its real end)
+fn complete_literal(text: &str, quote: char) -> bool {
+    let c: Vec<char> = text.chars().collect();
+    if c.len() < 2 || c[0] != quote { return false; }
+    // `'''` (an unescaped quote as the character) is accepted by the lexer
+    if quote == '\'' && c.len() == 3 && c[1] == '\'' && c[2] == '\'' { return true; }
+    let mut k = 1;
+    while k < c.len() {
+        if c[k] == '\\' { k += 2; continue; }
+        if c[k] == quote { return k == c.len() - 1; }
+        k += 1;
+    }
+    false
+}
+
+/// the value of a literal with escapes: Some(expected payload) or None when the literal must be rejected
+fn check_literal(src: &str, want: Option<&str>) -> Option<String> {
+    let items: Vec<_> = match catch_unwind(AssertUnwindSafe(|| Lexer::new(src, uuid::Uuid::nil()).take(8).collect::<Vec<_>>())) { Ok(v) => v, Err(_) => return Some(format!("lexer panicked on {src:?}")) };
+    let first = items.first();
+    match (first, want) {
+        (Some(Ok(t)), Some(w)) => {
+            let got = match t.token_type() { TokenType::String(s) => s.clone(), TokenType::Char(c) => c.to_string(), other => return Some(format!("{src:?} is read as {other:?}, expected the literal {w:?}")) };
+            if got != w { return Some(format!("the literal {src:?} is read as {got:?}, it denotes {w:?}")); }
+            let r = t.range();
+            if r.end().raw_index() + 1 != src.chars().count() { return Some(format!("the token of {src:?} ends at offset {}, the literal ends at {}", r.end().raw_index(), src.chars().count() - 1)); }
+            None
+        }
+        (Some(Ok(t)), None) => Some(format!("the malformed literal {src:?} is accepted as {:?}", t.token_type())),
+        (Some(Err(_)), None) => None,
+        (Some(Err(_)), Some(w)) => Some(format!("the literal {src:?} (= {w:?}) is rejected")),
+        (None, _) => Some(format!("no token for {src:?}")),
+    }
 }
 
 /// returns Some(description) when `src` violates a lexer obligation
@@ -115,6 +150,18 @@ pub fn search(v: &serde_json::Value) -> i32 {
                 "main:\n    li a0, 1\n\u{c}\nfoo:\n    ret\n", "a\u{2028}b\nc", "\u{3000}x", "li t0, '\u{3bb}'\nli t1, 'é'"] {
         n += 1;
         if let Some(why) = check_source(src) { println!("witness: source {src:?}: {why}"); return 1; }
+    }
+    // literals with escapes: value, extent, and malformed escapes
+    let lits: [(&str, Option<&str>); 22] = [
+        ("'a'", Some("a")), ("'\\n'", Some("\n")), ("'\\t'", Some("\t")), ("'\\''", Some("'")), ("'\\\\'", Some("\\")), ("'\\\"'", Some("\"")),
+        ("'\\u0041'", Some("A")), ("'\\u03bb'", Some("\u{3bb}")), ("'\\u03BB'", Some("\u{3bb}")),
+        ("\"a\\tb\\n\"", Some("a\tb\n")), ("\"q\\\"q\"", Some("q\"q")), ("\"\\u0041\\u0042\"", Some("AB")), ("\"\"", Some("")),
+        ("'\\u+041'", None), ("'\\u-041'", None), ("'\\u 041'", None), ("'\\u004g'", None), ("'\\u41'", None), ("'\\q'", None),
+        ("\"\\u+041\"", None), ("\"\\uD800\"", None), ("'ab'", None),
+    ];
+    for (src, want) in lits {
+        n += 1;
+        if let Some(why) = check_literal(src, want) { println!("witness: {why}"); return 1; }
     }
     println!("no failing input among {n} source texts (all strings of length <= 4 over {} symbols, plus samples)", ALPHA.len());
     0
